@@ -3,9 +3,12 @@
 ones into /verif/seeded/<id>/ and write seeded/README.md."""
 import json, os, shutil, sys, glob
 V = '/verif'
-SRC = sys.argv[1] if len(sys.argv) > 1 else '/tmp/mut'
+SRCS = sys.argv[1:] if len(sys.argv) > 1 else ['/tmp/mut']
 rows = []
-for f in sorted(glob.glob(f'{V}/build/seedres/*.json')):
+def _key(f):
+    pid, k = os.path.basename(f)[:-5].split('-')
+    return (pid, int(k) if k.isdigit() else 0)
+for f in sorted(glob.glob(f'{V}/build/seedres/*.json'), key=_key):
     name = os.path.basename(f)[:-5]
     pid, k = name.split('-')
     t = open(f).read()
@@ -14,16 +17,22 @@ for f in sorted(glob.glob(f'{V}/build/seedres/*.json')):
     except Exception:
         rows.append((pid, k, None, None)); continue
     meta = {}
-    mp = f'{SRC}/{pid}-out/meta{k}.json'
+    src = None
+    for cand in SRCS:
+        if os.path.exists(f'{cand}/{pid}-out/patch{k}.diff'):
+            src = cand; break
+    mp = f'{src}/{pid}-out/meta{k}.json' if src else f'{V}/seeded/{pid}/meta{k}.json'
     if os.path.exists(mp):
         try: meta = json.load(open(mp))
         except Exception: meta = {}
+    if 'summary' not in meta and 'breaks' in meta:
+        meta['summary'] = meta['breaks']
     rows.append((pid, k, d, meta))
-    if d.get('confirmed_seed'):
+    if d.get('confirmed_seed') and src:
         dst = f'{V}/seeded/{pid}'
         os.makedirs(dst, exist_ok=True)
-        shutil.copy(f'{SRC}/{pid}-out/patch{k}.diff', f'{dst}/patch{k}.diff')
-        shutil.copy(f'{SRC}/{pid}-out/demo{k}.py', f'{dst}/demo{k}.py')
+        shutil.copy(f'{src}/{pid}-out/patch{k}.diff', f'{dst}/patch{k}.diff')
+        shutil.copy(f'{src}/{pid}-out/demo{k}.py', f'{dst}/demo{k}.py')
         m = {"property": pid, "breaks": meta.get("summary", ""), "needs_to_manifest": meta.get("needs_to_manifest", ""),
              "files": meta.get("files", []),
              "confirmed_by": "tools/verify_seed.py in a scratch git worktree of /repo: demo exits 0 on the clean tree, non-zero with the patch; all 972 stable_pass tests of the pinned suite still pass with the patch",
